@@ -54,12 +54,13 @@ func init() {
 		Prepare: prepareAll,
 		Select: []Selector{
 			{Units: `ebnf/parser/ast\.Parse(\$1)?$`},
+			{Units: `ebnf/parser/ast\.(\w+\.(Equal|Children|Pos)|equalPositions)$`},
 			{Units: `ebnf/parser\.Parser\.ParseAndBuildAST(\$\d+)?$`},
 			{Units: `ebnf/parser\.Parser\.ParseAndEvaluate(\$\d+)?$`, Kinds: `^(post|pre|provides|refine|inv-init|inv-pres|vacuity)$`},
 		},
-		Explain: "Proved for all inputs: (generic tree) ParseAndBuildAST pushes one leaf per shifted token carrying exactly its terminal, lexeme and position, and one internal node per reduction whose production is the reduced one and whose children are the popped nodes in the order of the production's body (loop invariant of the prepend loop; the value stack mirrors the parse stack through the callback invariant; the order of callbacks is C18); (typed tree) each of the 35 semantic actions of ebnf/parser/ast.Parse builds exactly the node the production denotes: operands of concatenation and alternation in source order with flattening only of an operand that is itself the same operator, a trailing '|' adds one empty alternative last, groups are transparent, [ ] { } {{ }} wrap their operand with the bracket's position, rules / handles / directives / token declarations carry the names, operands, associativity, expansion of predefined names and positions written, declarations are appended in order, a grammar without declarations gets an empty list (fix c8839de); every type assertion and index in these actions is safe under the LR value discipline. NOT decided: 'printing the typed tree and parsing it again yields an equal tree' (the repository has no EBNF printer to put under contract) and 'the grammar obtained from the typed tree is the one emerge derives directly' (Lemma L-EXP applied to both action sets; stated, not proved); Equal/Children of the node types are not under contract.",
+		Explain: "Proved for all inputs: (generic tree) ParseAndBuildAST pushes one leaf per shifted token carrying exactly its terminal, lexeme and position, and one internal node per reduction whose production is the reduced one and whose children are the popped nodes in the order of the production's body (loop invariant of the prepend loop; the value stack mirrors the parse stack through the callback invariant; the order of callbacks is C18); (typed tree) each of the 35 semantic actions of ebnf/parser/ast.Parse builds exactly the node the production denotes: operands of concatenation and alternation in source order with flattening only of an operand that is itself the same operator, a trailing '|' adds one empty alternative last, groups are transparent, [ ] { } {{ }} wrap their operand with the bracket's position, rules / handles / directives / token declarations carry the names, operands, associativity, expansion of predefined names and positions written, declarations are appended in order, a grammar without declarations gets an empty list (fix c8839de); every type assertion and index in these actions is safe under the LR value discipline. NOT decided: 'printing the typed tree and parsing it again yields an equal tree' (the repository has no EBNF printer to put under contract) and 'the grammar obtained from the typed tree is the one emerge derives directly' (Lemma L-EXP applied to both action sets; stated, not proved); (node methods, the judge of 'an equal tree') Children of the 9 interior node types lists exactly the operands in the order written; Pos is the recorded position; Equal of each of the 15 node types holds iff the other node has the same type, the same written fields, the same position and - one inductive step of structural equality - operands that are pairwise Equal in order (eqv: what the operand's own Equal answers, A-DISPATCH), with equalPositions = same file, offset, line, column or both absent; Traverse is not under contract.",
 		Lemmas:  []string{"L-STACK (see C12)", "L-LR (see C18): the leaves left to right are the shifted tokens in source order and every interior node applies one production"},
-		Trusted: []string{"assumed contracts: list.Stack (LIFO), fmt.Sprintf (deterministic), A-TABLES, A-SOURCE"},
+		Trusted: []string{"assumed contracts: list.Stack (LIFO), fmt.Sprintf (deterministic), lexer.Position.Equal (field-wise), A-TABLES, A-SOURCE", "A-DISPATCH: a call of Equal through an interface runs the Equal of the dynamic type (each of which is under contract); precondition of the node methods: a tree holds no typed-nil node and no nil operand"},
 	})
 }
 
